@@ -217,3 +217,50 @@ def _(c):
     c.ensures("implies(isa(value, AnnotatedValue), forall(lambda w: holds(result, w) == (all(holds(e.constraint, w) for e in value.get_metadata_of_type(ConstraintExtension))"
               " and holds(extract_constraints(value.value), w)), 'val'))", name="an_annotated_value_yields_the_conjunction_of_its_own_and_its_inner_constraints")
     c.ensures("implies(not isa(value, MultiValuedValue) and not isa(value, AnnotatedValue), result is NULL_CONSTRAINT)", name="other_values_carry_no_constraint")
+
+
+@REG.static_check("C02.comparator_table", props=P)
+def _():
+    """the comparison tables read by _constraint_from_compare_op / _constraint_from_predicate_provider / _visit_single_compare (re-read from
+    the source on every run): COMPARATOR_TO_OPERATOR[X] = (the operator X denotes, its logical complement, ...) and MIRRORED_COMPARATORS[X] is
+    the comparison with the operands exchanged (a X b == b mirror(X) a) -- the narrowing of the negative branch and of `const < len(x)` rest on both"""
+    import ast as _ast
+    from pyvc import extract
+    mod = extract.get_module("pyanalyze.name_check_visitor")
+    want = {"Eq": ("operator.eq", "operator.ne"), "NotEq": ("operator.ne", "operator.eq"), "Lt": ("operator.lt", "operator.ge"), "LtE": ("operator.le", "operator.gt"),
+            "Gt": ("operator.gt", "operator.le"), "GtE": ("operator.ge", "operator.lt"), "Is": ("operator.is_", "operator.is_not"), "IsNot": ("operator.is_not", "operator.is_"),
+            "In": ("_in", "_not_in"), "NotIn": ("_not_in", "_in")}
+    mirror = {"Lt": "Gt", "LtE": "GtE", "Gt": "Lt", "GtE": "LtE"}
+    out = []
+    node = mod.assigns.get("COMPARATOR_TO_OPERATOR")
+    if not isinstance(node, _ast.Dict):
+        out.append({"name": "C02.comparator_table:shape", "ok": False, "detail": "COMPARATOR_TO_OPERATOR is no longer a dict display: the table cannot be read"})
+    else:
+        seen = set()
+        for k, v in zip(node.keys, node.values):
+            op = _ast.unparse(k).replace("ast.", "") if k is not None else None
+            if op not in want or not isinstance(v, _ast.Tuple) or len(v.elts) != 3:
+                continue
+            seen.add(op)
+            got = tuple(_ast.unparse(e) for e in v.elts[:2])
+            out.append({"name": f"C02.comparator_table:{op}", "ok": got == want[op],
+                        "detail": f"ast.{op}: table gives (positive, negative) = {got}, the operator and its complement are {want[op]}" if got != want[op] else f"ast.{op} -> {got}"})
+        for op in sorted(set(want) - seen):
+            out.append({"name": f"C02.comparator_table:{op}", "ok": False, "detail": f"ast.{op} has no 3-tuple row in COMPARATOR_TO_OPERATOR"})
+    # the two helpers the In / NotIn rows name
+    for fn, body in (("_in", ("operator.contains(b, a)", "a in b")), ("_not_in", ("not operator.contains(b, a)", "a not in b"))):
+        f = mod.funcs.get(fn)
+        src = None
+        if f is not None and len(f.body) == 1 and isinstance(f.body[0], _ast.Return) and [a.arg for a in f.args.args] == ["a", "b"]:
+            src = _ast.unparse(f.body[0].value)
+        out.append({"name": f"C02.comparator_table:{fn}", "ok": src in body, "detail": f"{fn}(a, b) returns `{src}`, expected one of {body}"})
+    node = mod.assigns.get("MIRRORED_COMPARATORS")
+    if not isinstance(node, _ast.Dict):
+        out.append({"name": "C02.comparator_table:mirror_shape", "ok": False, "detail": "MIRRORED_COMPARATORS is no longer a dict display"})
+    else:
+        got = {_ast.unparse(k).replace("ast.", ""): _ast.unparse(v).replace("ast.", "") for k, v in zip(node.keys, node.values) if k is not None}
+        for op in sorted(set(got) | set(mirror)):
+            ok = got.get(op) == mirror.get(op)
+            out.append({"name": f"C02.comparator_table:mirror_{op}", "ok": ok,
+                        "detail": f"MIRRORED_COMPARATORS[ast.{op}] = {got.get(op)}; `a {op} b` is `b {mirror.get(op)} a`" + ("" if ok else " (an operator with no row must be symmetric: only Eq, NotEq are)")})
+    return out
